@@ -31,7 +31,7 @@ COMP = [
     ("scrypt", "$7$", "scrypt", 16, 44, []),
     ("gost_yescrypt", "$gy$", "gost_yescrypt", 16, 44, []),
 ]
-QUICK = ["descrypt", "bsdicrypt", "md5crypt", "nt", "sunmd5"]
+QUICK = ["descrypt", "bsdicrypt", "md5crypt", "nt", "sunmd5", "yescrypt", "yescrypt-70", "scrypt"]
 
 
 def queries(tier, seed, build):
@@ -41,7 +41,7 @@ def queries(tier, seed, build):
             continue
         m = BY_NAME[mname]
         defs = ["METHOD_FN=" + m.fn, "PREFIX_STR=" + cstr(prefix), "NRB=%d" % nrb, "GS_MAX=%d" % gsmax] + \
-               [d for d in m.mdefs if d != "NOT_ROUNDS"] + extra
+               [d for d in m.mdefs if d != "NOT_ROUNDS"] + extra + (["SCR_SIZE=512", "KDF_NO_FAIL"] if "M_YESCRYPT_KDF" in m.mdefs else [])
         loops = [("^harness$", None, max(gsmax + 4, nrb + 2), False)]
         for freg, sreg in m.caps:
             loops.append((freg, sreg, 2, True))
